@@ -127,7 +127,11 @@ let handle cmd =
     let pts1 = chunk f1 and pts2 = chunk f2 in
     let junk k = Fin (Z.add (z_of_int 777) k) in
     let zl1 = z_of_int l1 and zl2 = z_of_int l2 and znd = z_of_int nd in
-    let ub_abs = Fin (ed_model AbsDiff pts1 pts2) and ub_sq = Fin (ed_model SqEuclid pts1 pts2) in
+    (* the values of the C functions the kernels call: the regenerated Euclidean routines themselves (Gen_ced.v) *)
+    let cval r = (match fst r with RPlain v -> v | RSqrt v -> v) in
+    let ub_abs = if nd = 1 then cval (c_euclidean_distance_euclidean f1 zl1 f2 zl2) else cval (c_euclidean_distance_ndim_euclidean f1 zl1 f2 zl2 znd)
+    and ub_sq = if nd = 1 then cval (c_euclidean_distance_squared f1 zl1 f2 zl2) else cval (c_euclidean_distance_ndim_squared f1 zl1 f2 zl2 znd) in
+    let _ = pts1 and _ = pts2 in
     let eu () = if variant land 1 = 0
       then c_dtw_distance_euclidean ub_abs junk f1 zl1 f2 zl2 max_dist mld max_step only_ub penalty p1b p1e p2b p2e use_pruning window
       else c_dtw_distance_ndim_euclidean ub_abs junk f1 zl1 f2 zl2 znd max_dist mld max_step only_ub penalty p1b p1e p2b p2e use_pruning window in
@@ -139,6 +143,18 @@ let handle cmd =
         then c_dtw_distance sub ub_sq ub_sq junk f1 zl1 f2 zl2 inner_dist max_dist mld max_step only_ub penalty p1b p1e p2b p2e use_pruning window
         else c_dtw_distance_ndim sub ub_sq ub_sq junk f1 zl1 f2 zl2 znd inner_dist max_dist mld max_step only_ub penalty p1b p1e p2b p2e use_pruning window
       end in
+    (match r with RSqrt v -> "sqrt " ^ str_cost v | RPlain v -> "plain " ^ str_cost v) ^ (if ok then " ok" else " OUT-OF-BOUNDS")
+  | "ced" ->
+    (* the Euclidean routines of dd_ed.c as regenerated (Gen_ced.v) *)
+    let variant = nint () in let nd = nint () in
+    let l1 = nint () in let f1 = rd_list (l1 * nd) (fun () -> z_of_int (nint ())) in
+    let l2 = nint () in let f2 = rd_list (l2 * nd) (fun () -> z_of_int (nint ())) in
+    let zl1 = z_of_int l1 and zl2 = z_of_int l2 and znd = z_of_int nd in
+    let (r, ok) = (match variant with
+      | 0 -> c_euclidean_distance_squared f1 zl1 f2 zl2
+      | 1 -> c_euclidean_distance_euclidean f1 zl1 f2 zl2
+      | 2 -> c_euclidean_distance_ndim_squared f1 zl1 f2 zl2 znd
+      | _ -> c_euclidean_distance_ndim_euclidean f1 zl1 f2 zl2 znd) in
     (match r with RSqrt v -> "sqrt " ^ str_cost v | RPlain v -> "plain " ^ str_cost v) ^ (if ok then " ok" else " OUT-OF-BOUNDS")
   | _ -> failwith ("unknown command " ^ cmd)
 
